@@ -229,11 +229,12 @@ void BpEndecodeArray(struct BpArrayDescriptor *descriptor,
     }
 
     // Skip redundant bits if decoding.
-    if (descriptor->extensible && (!ctx->is_encode)) {
-        int ito = i + (((int)ahead) * descriptor->cap);
-        if (ito >= ctx->i) {
-            ctx->i = ito;
-        }
+    if (descriptor->extensible && (!ctx->is_encode) &&
+        ((int)ahead) > descriptor->cap) {
+        // The opponent has (ahead - cap) more elements, each occupies the
+        // same number of bits as the ones just decoded.
+        ctx->i += (((int)ahead) - descriptor->cap) *
+                  ((ctx->i - i - 16) / descriptor->cap);
     }
 }
 
